@@ -3,6 +3,7 @@ import QipVerif.Model.Embed
 import QipVerif.Model.EmbedFlat
 import QipVerif.Model.EmbedArgs
 import QipVerif.Model.EmbedObj
+import QipVerif.Model.EmbedNum
 /-! Driver for the embedding model (C08).
 
 * `validate dims=.. targets=.. opdims=..`  →  `ok` | `err <kind>`
@@ -17,12 +18,15 @@ import QipVerif.Model.EmbedObj
   `kron(..kron(P, 1_r1).., 1_rm)` for a `D × D` matrix `P`
 * `args n=<N|none> dims=<..|none> t=<none|iT|lT1,T2,..> opl=.. opr=.. cyclic=0|1`
                                            →  `ok d1,d2;t1,t2|...` (one group per returned operator) | `err <kind>`
+* `argst n=<none|T:v> dims=<none|lT:v,T:v,..|pT:v|qT:v> t=<none|sT:v|lT:v,..> opl=.. opr=.. cyclic=0|1` with the type
+  letters `i` int, `b` bool, `n` numpy integer, `a` 0-d array, `f` integral float; `p` = integer dims of a pulse,
+  `q` = `num_qubits` of `Gate.get_qobj` without dims  →  as `args`, or `err numtype`
 * `hist elems=<od|none>:<targ>:<oid>;.. ops=<op>;..` with `<targ>` = `none|iT|lT1,T2`, `<op>` = `g:<n3|d1,d2,..>` (ask),
   `t:<i>:<targ>` (element i: new targets), `q:<i>:<od|none>:<oid>` (element i: new operator object)
                                            →  `ok` + one group per `g` (`|`), one item per element (`/`):
                                               `d1,d2;t1,t2;oid` or `!<kind>`
 -/
-open QipVerif QipVerif.Proto QipVerif.Embed QipVerif.EmbedFlat QipVerif.EmbedArgs QipVerif.EmbedObj
+open QipVerif QipVerif.Proto QipVerif.Embed QipVerif.EmbedFlat QipVerif.EmbedArgs QipVerif.EmbedObj QipVerif.EmbedNum
 
 def errName : Err → String
   | .count => "count" | .range => "range" | .dims => "dims" | .index => "index" | .permute => "permute"
@@ -56,6 +60,43 @@ def tArg? (fs : List String) : Option TArg :=
     if s.startsWith "i" then ((s.drop 1).toString.toInt?).map .int
     else if s.startsWith "l" then (intList? (s.drop 1).toString).map .list
     else none
+
+def parseNum (s : String) : Option Num :=
+  match s.splitOn ":" with
+  | [t, v] =>
+    let ty : Option NumT := match t with
+      | "i" => some .int | "b" => some .bool | "n" => some .npint | "a" => some .arr0 | "f" => some .float
+      | _ => none
+    match ty, v.toInt? with
+    | some ty, some v => some ⟨ty, v⟩
+    | _, _ => none
+  | _ => none
+
+def parseNums (s : String) : Option (List Num) := (splitNE s ",").mapM parseNum
+
+def parseArgsT (fs : List String) : Option ArgsT :=
+  let n : Option (Option Num) := match fStr? fs "n" with
+    | some "none" => some none
+    | some s => (parseNum s).map some
+    | none => none
+  let d : Option DimsT := match fStr? fs "dims" with
+    | some "none" => some .none
+    | some s =>
+      if s.startsWith "l" then (parseNums (s.drop 1).toString).map .list
+      else if s.startsWith "p" then (parseNum (s.drop 1).toString).map .pulse
+      else if s.startsWith "q" then (parseNum (s.drop 1).toString).map .qubits
+      else none
+    | none => none
+  let t : Option TArgT := match fStr? fs "t" with
+    | some "none" => some .none
+    | some s =>
+      if s.startsWith "s" then (parseNum (s.drop 1).toString).map .scalar
+      else if s.startsWith "l" then (parseNums (s.drop 1).toString).map .list
+      else none
+    | none => none
+  match n, d, t, fNats? fs "opl", fNats? fs "opr", fNat? fs "cyclic" with
+  | some n, some d, some t, some opl, some opr, some c => some ⟨n, d, t, opl, opr, c != 0⟩
+  | _, _, _, _, _, _ => none
 
 def parseTarg (s : String) : Option TArg :=
   if s == "none" then some .none
@@ -170,6 +211,14 @@ def step (line : String) : String :=
       | .error e => "err " ++ aErrName e
       | .ok rs => "ok " ++ "|".intercalate (rs.map fun r => showNats r.1 ++ ";" ++ showNats r.2)
     | _, _, _, _, _, _ => "bad-op"
+  | some "argst" =>
+    match parseArgsT fs with
+    | some a =>
+      match expandArgsT a with
+      | .error .numtype => "err numtype"
+      | .error (.args e) => "err " ++ aErrName e
+      | .ok rs => "ok " ++ "|".intercalate (rs.map fun r => showNats r.1 ++ ";" ++ showNats r.2)
+    | none => "bad-op"
   | some "hist" =>
     match fStr? fs "elems", fStr? fs "ops" with
     | some es, some ops =>
